@@ -21,11 +21,13 @@ PLAN = {
     "C01": {
         "wtf": True,
         "quick": [
+            {"run": "TestC01_SoughtNearTies", "checks": 150},
             {"run": "TestC01_Engine", "checks": 6000},
             {"run": "TestC01_Shipped", "checks": 150},
             {"run": "TestC01_CLI", "checks": 120},
         ],
         "thorough": [
+            {"run": "TestC01_SoughtNearTies", "checks": 20000, "shards": 4, "timeout": 7200},
             {"run": "TestC01_Engine", "checks": 900000, "shards": 12, "timeout": 7200},
             {"run": "TestC01_Shipped", "checks": 6000, "shards": 2, "timeout": 7200},
             {"run": "TestC01_CLI", "checks": 9000, "shards": 2, "timeout": 7200},
